@@ -409,6 +409,93 @@ static void p5_case(uint64_t idx, void *vctx)
     pixman_image_unref(src); pixman_image_unref(dst); free(sb); free(db); free(d0); free(ref);
 }
 
+/* phase 6: a request that follows another request.  Dispatch decisions are cached per thread; a request that differs from its
+ * predecessor in ONE property of ONE image (accessors, alpha map, transform, repeat, component alpha) must still be handled by a path
+ * that honours the property - under every configuration, and so identically.  Request A (plain images) is issued first, then request B;
+ * the configuration switch flushes the cache, so B is the first lookup after A in every configuration. */
+static uint32_t p6_read(const void *p, int size) { switch (size) { case 1: return *(const uint8_t *)p ^ 0x01u; case 2: return *(const uint16_t *)p ^ 0x0101u; default: return *(const uint32_t *)p ^ 0x01010101u; } }
+static void p6_write(void *p, uint32_t v, int size) { switch (size) { case 1: *(uint8_t *)p = (uint8_t)(v ^ 0x01u); break; case 2: *(uint16_t *)p = (uint16_t)(v ^ 0x0101u); break; default: *(uint32_t *)p = v ^ 0x01010101u; } }
+enum { V6_DST_ACC, V6_SRC_ACC, V6_MASK_ACC, V6_DST_AMAP, V6_SRC_AMAP, V6_SRC_XF, V6_SRC_REPEAT, V6_MASK_CA, V6_MASK_XF, NV6 };
+static const char *V6N[NV6] = { "destination gets accessors", "source gets accessors", "mask gets accessors", "destination gets an alpha map", "source gets an alpha map",
+                                "source gets a scale-2 transform", "source gets REPEAT_REFLECT and an origin outside", "mask switches component alpha", "mask gets a half-pixel translation (bilinear)" };
+typedef struct { int n; int *combo; const int *ops; } p6_ctx;
+/* shadowed: the image has an alpha map, so its own alpha bits are not part of its pixels' values (they are never read); whether a request
+ * that leaves the pixel values unchanged rewrites them (from the map) or not is not observable through the image */
+static void p6_mask_undef(himg_t *d, int di, int shadowed_alpha)
+{
+    int dbpp = PIXMAN_FORMAT_BPP(DST[di].fmt); ph_fmt_t df; ph_fmt_describe(DST[di].fmt, DST[di].name, &df);
+    uint32_t undef32 = ~ph_defined_mask(&df) & (dbpp == 32 ? 0xffffffffu : ((1u << dbpp) - 1));
+    if (shadowed_alpha && df.aw) undef32 |= ((1u << df.aw) - 1) << df.as;
+    if (!undef32) return;
+    for (int yy = 0; yy < IMGH; yy++) { uint8_t *row = (uint8_t *)d->buf + (size_t)yy * d->stride; for (int xx = 0; xx < IMGW; xx++) ph_put_pixel(row, dbpp, xx, ph_get_pixel(row, dbpp, xx) & ~undef32); }
+}
+static void p6_case(uint64_t idx, void *vctx)
+{
+    p6_ctx *c = vctx; int var = (int)(idx % NV6); int id = c->combo[idx / NV6];
+    int di = id % NDST; id /= NDST; int mi = id % NMASK; id /= NMASK; int si = id % NSRC; id /= NSRC; int op = c->ops[id];
+    if (MASK[mi].kind == 9) return;                                        /* shared-storage masks: phase 1/2 */
+    int has_mask_bits = MASK[mi].kind == 0 || MASK[mi].kind == 2 || MASK[mi].kind == 4;
+    if ((var == V6_MASK_ACC || var == V6_MASK_XF) && !has_mask_bits) return;
+    if (var == V6_MASK_CA && MASK[mi].kind < 0) return;
+    if ((var == V6_SRC_ACC || var == V6_SRC_AMAP) && SRC[si].kind != 0) return;
+    if ((var == V6_SRC_XF || var == V6_SRC_REPEAT) && SRC[si].kind != 0) return;
+    himg_t s = make_img(&SRC[si], !strcmp(SRC[si].name, "solid-opaque"), IMGW, IMGH, 0, 0, 1), s2 = make_img(&SRC[si], !strcmp(SRC[si].name, "solid-opaque"), IMGW, IMGH, 0, 0, 1);
+    himg_t m, m2; memset(&m, 0, sizeof m); memset(&m2, 0, sizeof m2);
+    if (MASK[mi].kind >= 0) { imgkind_t mk = { MASK[mi].name, MASK[mi].fmt, MASK[mi].kind }; m = make_img(&mk, 0, IMGW, IMGH, 0, 1, 5); m2 = make_img(&mk, 0, IMGW, IMGH, 0, 1, 5);
+                               if (MASK[mi].ca) { pixman_image_set_component_alpha(m.img, 1); pixman_image_set_component_alpha(m2.img, 1); } }
+    himg_t d = make_img(&DST[di], 0, IMGW, IMGH, 0, 0, 9), d2 = make_img(&DST[di], 0, IMGW, IMGH, 0, 0, 9);
+    static uint8_t amap_bits[IMGH][IMGW + 4], ref_amap[IMGH][IMGW + 4];
+    pixman_image_t *amap = NULL;
+    if (!s.img || !d.img || !s2.img || !d2.img) goto out;
+    pixman_transform_t t2, th; pixman_transform_init_scale(&t2, 0x20000, 0x20000); pixman_transform_init_translate(&th, 0x8000, 0);
+    switch (var) {
+    case V6_DST_ACC: pixman_image_set_accessors(d2.img, p6_read, p6_write); break;
+    case V6_SRC_ACC: pixman_image_set_accessors(s2.img, p6_read, p6_write); break;
+    case V6_MASK_ACC: pixman_image_set_accessors(m2.img, p6_read, p6_write); break;
+    case V6_DST_AMAP: case V6_SRC_AMAP:
+        for (int y = 0; y < IMGH; y++) for (int x = 0; x < IMGW + 4; x++) amap_bits[y][x] = (uint8_t)(0x20 + 29 * ((x + 3 * y) % 8));
+        amap = pixman_image_create_bits(PIXMAN_a8, IMGW, IMGH, (uint32_t *)&amap_bits[0][0], IMGW + 4);
+        pixman_image_set_alpha_map(var == V6_DST_AMAP ? d2.img : s2.img, amap, 0, 0); break;
+    case V6_SRC_XF: pixman_image_set_transform(s2.img, &t2); break;
+    case V6_SRC_REPEAT: pixman_image_set_repeat(s2.img, PIXMAN_REPEAT_REFLECT); break;
+    case V6_MASK_CA: pixman_image_set_component_alpha(m2.img, !MASK[mi].ca); break;
+    case V6_MASK_XF: pixman_image_set_transform(m2.img, &th); pixman_image_set_filter(m2.img, PIXMAN_FILTER_BILINEAR, NULL, 0); break;
+    }
+    {
+        uint8_t *d0 = malloc(d.size), *ref1 = malloc(d.size), *ref2 = malloc(d.size); memcpy(d0, d.buf, d.size);
+        int sxB = var == V6_SRC_REPEAT ? -5 : 0;
+        char desc[256], cfgn[64];
+        for (int ci = -1; ci < NCFGS && !vf_failed(); ci++) {
+            int cfg = ci < 0 ? REF_CFG : CFGS[ci]; if (ci >= 0 && cfg == REF_CFG) continue;
+            ph_set_cfg(cfg);
+            memcpy(d.buf, d0, d.size); memcpy(d2.buf, d0, d.size);
+            for (int y = 0; y < IMGH; y++) for (int x = 0; x < IMGW + 4; x++) amap_bits[y][x] = (uint8_t)(0x20 + 29 * ((x + 3 * y) % 8));   /* a destination's alpha map is written too */
+            pixman_image_composite32(op, s.img, m.img, d.img, 0, 0, 0, 0, 1, 0, 33, 2);                               /* request A */
+            pixman_image_composite32(op, s2.img, m2.img, d2.img, sxB, 0, 0, 0, 1, 0, 33, 2);                          /* request B */
+            vf_count_libcalls(2);
+            p6_mask_undef(&d, di, 0); p6_mask_undef(&d2, di, var == V6_DST_AMAP);
+            if (ci < 0) { memcpy(ref1, d.buf, d.size); memcpy(ref2, d2.buf, d.size); memcpy(ref_amap, amap_bits, sizeof amap_bits); }
+            else if (var == V6_DST_AMAP && memcmp(ref_amap, amap_bits, sizeof amap_bits) && !memcmp(ref1, d.buf, d.size) && !memcmp(ref2, d2.buf, d.size)) {
+                describe(desc, sizeof desc, op, si, mi, di);
+                vf_violation("c02-impl-differs-after-previous-request", "%s: request A on plain images, then request B where the %s: PIXMAN_DISABLE=[%s] leaves other bytes in the destination's alpha map than the general path",
+                             desc, V6N[var], ph_cfg_name(cfg, cfgn, sizeof cfgn));
+            }
+            else if (memcmp(ref1, d.buf, d.size) || memcmp(ref2, d2.buf, d.size)) {
+                int second = memcmp(ref1, d.buf, d.size) == 0; const uint8_t *r = second ? ref2 : ref1, *g = (const uint8_t *)(second ? d2.buf : d.buf);
+                size_t off = 0; while (off < d.size && r[off] == g[off]) off++;
+                describe(desc, sizeof desc, op, si, mi, di);
+                vf_violation("c02-impl-differs-after-previous-request", "%s: request A on plain images, then request B where the %s: PIXMAN_DISABLE=[%s] differs from the general path in the result of request %s "
+                             "at byte %zu (row %zu, byte-in-row %zu): %02x vs %02x", desc, V6N[var], ph_cfg_name(cfg, cfgn, sizeof cfgn), second ? "B" : "A", off, off / d.stride, off % d.stride, g[off], r[off]);
+            }
+        }
+        if (!vf_in_confirm) { vf_count_eval(2); vf_count_nontrivial((memcmp(ref1, d0, d.size) != 0) + (memcmp(ref2, d0, d.size) != 0)); vf_outcome(vf_mix(vf_hash64(ref2, d.size, (uint64_t)op), (uint64_t)var)); }
+        free(d0); free(ref1); free(ref2);
+    }
+out:
+    free_img(&s); free_img(&s2); free_img(&m); free_img(&m2); free_img(&d); free_img(&d2);
+    if (amap) pixman_image_unref(amap);
+}
+
 /* phase 4: blt / fill under every configuration */
 static void p4_case(uint64_t idx, void *vctx)
 {
@@ -506,15 +593,18 @@ int main(int argc, char **argv)
     vf_space_run("phase4-blt-fill", 6 * 20 * 40, p4_case, NULL);
     vf_space_run("phase5-rotations-covering-source", 3 * 4 * 16 * 4 * 2 * 2, p5_case, NULL);
 
+    p6_ctx c6 = { c2.n, c2.combo, ops };
+    vf_space_run("phase6-request-after-request", (uint64_t)c2.n * NV6, p6_case, &c6);
+
     write_coverage();
     if (cov->cache_mismatch && !vf->nviol) {
         vf_rec_t r; memset(&r, 0, sizeof r); snprintf(r.key, sizeof r.key, "c02-cache-returned-other-path"); snprintf(r.space, sizeof r.space, "all");
         snprintf(r.text, sizeof r.text, "%llu lookups returned a function different from the first matching table entry", (unsigned long long)cov->cache_mismatch);
         vf_commit(&r);
     }
-    static char bounds[400];
+    static char bounds[700];
     snprintf(bounds, sizeof bounds, "%d configurations; %d operators x %d source kinds x %d mask kinds x %d destination formats; loop geometry: %d widths x dest_x 0..7 x 3 source offsets on the %d combinations that reach a fast path; "
-             "transformed: 5 ops x 6 src x 3 mask x 6 dst x %d transforms x 4 filters (nearest, bilinear, 3x3 convolution, separable) x 4 repeats; blt/fill 6 bpp x 20 x x 40 widths; rotations 90/180/270 x 4 formats x 16 widths (1..128) x 4 dest_x x 2 heights x 2 ops on covering 132x132 sources", NCFGS, nops, NSRC, NMASK, NDST,
+             "transformed: 5 ops x 6 src x 3 mask x 6 dst x %d transforms x 4 filters (nearest, bilinear, 3x3 convolution, separable) x 4 repeats; blt/fill 6 bpp x 20 x x 40 widths; rotations 90/180/270 x 4 formats x 16 widths (1..128) x 4 dest_x x 2 heights x 2 ops on covering 132x132 sources; request-after-request: every fast-path combination x 9 one-property changes between two consecutive requests", NCFGS, nops, NSRC, NMASK, NDST,
              (int)(sizeof W_ALL / sizeof W_ALL[0]), c2.n, NXF);
     vf_bounds = bounds;
     return vf_finish();
